@@ -22,9 +22,10 @@ ACCESSOR_OPS = (
 COPY_OP = 'map.copy_rect'      # get_rect_tiles, then set_rect_tiles(result)
 RELOAD_OP = 'game.save_reload'  # write the cart, load it back, carry on
 REPLACE_OP = 'game.replace_section'  # assign a new section object
+DEEPCOPY_OP = 'game.deepcopy'   # carry on with copy.deepcopy(game)
 RAW_OP = 'game.write_cart_data'
 ACCESSOR_OPS = ACCESSOR_OPS + (COPY_OP, 'gfx.copy_sprite', RELOAD_OP,
-                               REPLACE_OP)
+                               REPLACE_OP, DEEPCOPY_OP)
 ALL_OPS = ACCESSOR_OPS + (RAW_OP,)
 
 B = models.BOUNDARIES
@@ -136,6 +137,8 @@ def gen_op(rng, kind):
             a['dest'] = a['id']          # overlapping copy
     elif kind == RELOAD_OP:
         a = {'fmt': rng.choice(['png', 'png', 'p8'])}
+    elif kind == DEEPCOPY_OP:
+        a = {}
     elif kind == REPLACE_OP:
         a = {'section': rng.choice(['gfx', 'map', 'gff', 'music', 'sfx',
                                     'sfx', 'music']),
@@ -541,6 +544,7 @@ def execute(sc):
             g2.sfx = Sfx.from_bytes(g.sfx.to_bytes(), version=33)
         bystander0 = _flat(g2)
         caller_buffers = []
+        originals = []
         label0 = bytes(g.label._data) if getattr(g, 'label', None) else None
         retained = []
         for step, o in enumerate(sc['ops']):
@@ -552,7 +556,19 @@ def execute(sc):
             exc = None
             real = mres = None
             rejected = False
-            if op == REPLACE_OP:
+            if op == DEEPCOPY_OP:
+                # the history continues on a deep copy; the original must
+                # stay as it is from here on
+                import copy
+                try:
+                    original = g
+                    g = copy.deepcopy(g)
+                    originals.append((step, original, _flat(original)))
+                    core.bump(res['probes'], 'continued-on-deepcopy')
+                except Exception as e:
+                    exc = e
+                mres, rejected, real = None, False, None
+            elif op == REPLACE_OP:
                 # the public attributes of a Game may be assigned: a new
                 # section object takes the place of the old one
                 from pico8.gfx.gfx import Gfx
@@ -735,6 +751,15 @@ def execute(sc):
                         'after later operations: it was %s, it is now %s' % (
                             op, _brief(a), step, _brief(was),
                             _brief(_norm(obj))), step)
+                    break
+        if not res['violations']:
+            for (step, orig, was) in originals:
+                if _flat(orig) != was:
+                    core.violation(
+                        res, 'C17', 'C17:deepcopy-shares-memory',
+                        'C17|a deep copy shares cart memory with its original',
+                        'the game that was deep-copied at step %d changed '
+                        'when its copy was edited' % step)
                     break
         if not res['violations']:
             for (step, buf, was) in caller_buffers:
